@@ -102,7 +102,14 @@ def scalar_names_alphabet():
     nums = [0, 1, -1, 2, 10, 12, 3, 23, 2 ** 70, 2.5, 2.54, 2.56, 0.25, 0.3, 1e-320, 1e16, 1e16 + 2, -2.5, 0.1,
             1 / 3, np.int8(5), np.int64(6), np.uint8(7), np.float16(0.75), np.float32(8.5), np.float64(9.5),
             np.uint64(2 ** 63 + 5), np.int32(-9)]
-    strs = ["abc", "x", "y", "xy", "X", "", "1a"]
+    # confusable values: a name built through a tolerance, a rounding or a narrower type would merge them
+    nums += [1e-9, 2e-9, 4e-9, 1e-12, 3e-12, 2e-320,                    # tiny, distinct (absolute tolerance)
+             2.4e9, 2.4e9 + 5e3, 2400005000 + 1, 2.4e9 + 1e4,           # large, a fine step apart (relative tol.)
+             1.0 + 2.0 ** -52, 1.0 - 2.0 ** -53, 0.1 + 0.2,             # one ulp from 1.0 / from 0.3
+             2 ** 70 + 1, 2 ** 53 + 1, float(2 ** 53),                  # ints beyond double precision
+             np.float32(0.1), np.float16(0.1), np.float32(2.4e9 + 5e3),  # narrow floats != the double 0.1 / 2400005000
+             np.float64(1e-9) * 3, 1e100, 1e100 * (1 + 2.0 ** -52), -1e-9]
+    strs = ["abc", "x", "y", "xy", "X", "", "1a", "a", "A", "ab", "a b", "aB"]
     return nums, strs
 
 
@@ -712,7 +719,8 @@ def part_names(c):
                 elif names[i] != names[j]:
                     c.outcome("equal_values_different_names", (tname(vals[i]), tname(vals[j])))
     # two placeholders: all pairs of pairs over a sub-alphabet
-    sub = nums[:16] + strs[:3]
+    sub = nums[:12] + [1e-9, 2e-9, 2.4e9, 2.4e9 + 5e3, 1.0 + 2.0 ** -52, 0.1 + 0.2, np.float32(0.1), 2 ** 53 + 1] \
+        + strs[:3]
     pairs = [(v, w) for v in sub for w in sub if isinstance(v, str) == isinstance(w, str)]
     names = {}
     for v, w in pairs:
